@@ -25,14 +25,15 @@ func init() {
 }
 
 type c07Case struct {
-	Field    string   `json:"field"`
-	Rule     string   `json:"rule"` // pv (no body) | pb (body *) | pn (body nested)
-	PathText string   `json:"path_text"`
-	PathVal  string   `json:"path_value"`
-	Query    []string `json:"query"`      // "key=text" in order
-	BodyVal  string   `json:"body_value"` // competing value placed in the body ("" = none)
-	Codec    string   `json:"codec"`
-	Extra    bool     `json:"extra_fields"` // unrelated fields in query/body as well
+	Field     string   `json:"field"`
+	Rule      string   `json:"rule"` // pv (no body) | pb (body *) | pn (body nested)
+	PathText  string   `json:"path_text"`
+	PathVal   string   `json:"path_value"`
+	Query     []string `json:"query"`      // "key=text" in order
+	BodyVal   string   `json:"body_value"` // competing value placed in the body ("" = none)
+	Codec     string   `json:"codec"`
+	Extra     bool     `json:"extra_fields"`         // unrelated fields in query/body as well
+	EmptyBody string   `json:"empty_body,omitempty"` // "" | "unknown-length" | "gzip": an announced body that delivers zero bytes (protobuf: the all-defaults message)
 }
 
 func (e *c03Env) c07Exec(tc *c07Case) (oracle, note string) {
@@ -102,10 +103,19 @@ func (e *c03Env) c07Exec(tc *c07Case) (oracle, note string) {
 		}
 	}
 	req := &http.Request{Method: verb, URL: &url.URL{Path: path, RawQuery: q.Encode()}, Header: hdr, Proto: "HTTP/1.1", ProtoMajor: 1, ProtoMinor: 1, Host: "verif.test"}
-	if len(body) > 0 {
+	switch {
+	case tc.EmptyBody == "unknown-length" && len(body) == 0:
+		req.Body = io.NopCloser(bytes.NewReader(nil)) // chunked request with only the terminating chunk
+		req.ContentLength = -1
+	case tc.EmptyBody == "gzip" && len(body) == 0:
+		gz := gzipBytes(nil)
+		req.Body = io.NopCloser(bytes.NewReader(gz))
+		req.ContentLength = int64(len(gz))
+		hdr.Set("Content-Encoding", "gzip")
+	case len(body) > 0:
 		req.Body = io.NopCloser(bytes.NewReader(body))
 		req.ContentLength = int64(len(body))
-	} else {
+	default:
 		req.Body = http.NoBody
 	}
 	e.impl.reset()
@@ -223,6 +233,12 @@ func c07Competitors(outp *[]c07Case, f fieldRef, p, cv, other textVal, isNested 
 					if rule == "pv" {
 						continue
 					}
+					// a body is announced but delivers zero bytes - in protobuf the all-defaults message:
+					// the path value (and nothing from the query competitor) is still bound
+					for _, eb := range []string{"unknown-length", "gzip"} {
+						out = append(out, c07Case{Field: f.path, Rule: rule, PathText: p.texts[0], PathVal: p.name, Codec: "protobuf", EmptyBody: eb},
+							c07Case{Field: f.path, Rule: rule, PathText: p.texts[0], PathVal: p.name, Codec: "protobuf", EmptyBody: eb, Query: qs[0]})
+					}
 					// body competitor (pb: body "*"; pn: only nested.* fields live in the body)
 					if rule == "pb" || isNested {
 						for _, cd := range []string{"json", "protobuf"} {
@@ -293,7 +309,7 @@ func runC07(c *Ctx) {
 		}
 		if oracle != "" {
 			r.Outcome("FAIL:" + oracle)
-			r.Violation(report.Violation{Oracle: oracle, Key: fmt.Sprintf("%s field=%s rule=%s path=%q query=%v body=%q codec=%s extra=%v", oracle, tc.Field, tc.Rule, tc.PathText, tc.Query, tc.BodyVal, tc.Codec, tc.Extra), Case: *tc, Note: note})
+			r.Violation(report.Violation{Oracle: oracle, Key: fmt.Sprintf("%s field=%s rule=%s path=%q query=%v body=%q codec=%s extra=%v empty-body=%q", oracle, tc.Field, tc.Rule, tc.PathText, tc.Query, tc.BodyVal, tc.Codec, tc.Extra, tc.EmptyBody), Case: *tc, Note: note})
 		} else {
 			r.Outcome(note)
 			r.Distinct(tc.Field + "|" + tc.Rule + "|" + ch)
